@@ -3,7 +3,7 @@
 use super::print::{plain_trivia, render, Printed, Rendered};
 use crate::engine::Tape;
 
-pub const BLOCK_COMMENTS: [&str; 16] = [
+pub const BLOCK_COMMENTS: [&str; 20] = [
     "/**/",
     "/***/",
     "/* x **/",
@@ -20,9 +20,13 @@ pub const BLOCK_COMMENTS: [&str; 16] = [
     "/*//*/",
     "/*\r\n crlf */",
     "/* ' ` @ # */",
+    "/* a \\ b */",
+    "/* \\*/",
+    "/* \\\n */",
+    "/*\\\\*/",
 ];
 
-pub const LINE_COMMENTS: [&str; 10] = [
+pub const LINE_COMMENTS: [&str; 15] = [
     "//\n",
     "//*\n",
     "// /* opener in a line comment\n",
@@ -33,9 +37,39 @@ pub const LINE_COMMENTS: [&str; 10] = [
     "// template X() {}\n",
     "//\r\n",
     "// */ /* \n",
+    "// integer division is \\\n",
+    "//\\\n",
+    "// a \\ b \\n c\n",
+    "// \\\\\n",
+    "// C:\\dir\\\r\n",
 ];
 
 pub const SPACES: [&str; 6] = [" ", "\n", "\t", "  ", "\r\n", "\n\n"];
+
+/// Characters comments are built from: everything that opens, closes, quotes or escapes something
+/// somewhere, but never a line break in a line comment and never `*/` inside a block comment.
+const COMMENT_CHARS: [char; 16] = [' ', 'a', '/', '*', '\\', '"', '\'', '\t', 'é', '0', '{', ';', '#', '=', '<', '-'];
+
+/// A comment with generated content (0-11 characters of COMMENT_CHARS): `//…\n` or `/*…*/`.
+pub fn generated_comment(t: &mut Tape) -> String {
+    let line = t.chance(128);
+    let n = t.below(12);
+    let mut s = String::from(if line { "//" } else { "/*" });
+    for _ in 0..n {
+        let c = COMMENT_CHARS[t.below(COMMENT_CHARS.len())];
+        if !line && c == '/' && s.ends_with('*') && s.len() > 2 {
+            s.push(' ');
+        }
+        s.push(c);
+    }
+    if line {
+        s.push('\n');
+    } else {
+        // `/*/` does not close the comment it opens; content ending in `*` gives `**/`
+        s.push_str("*/");
+    }
+    s
+}
 
 #[derive(Clone, Copy, Debug)]
 pub struct LayoutOpts {
@@ -66,7 +100,9 @@ pub fn random_trivia(p: &Printed, t: &mut Tape, opts: LayoutOpts) -> (Vec<String
                 s.push(' ');
             }
             for _ in 0..pieces {
-                if t.chance(90) {
+                if t.chance(40) {
+                    s.push_str(&generated_comment(t));
+                } else if t.chance(90) {
                     s.push_str(LINE_COMMENTS[t.below(LINE_COMMENTS.len())]);
                 } else {
                     s.push_str(BLOCK_COMMENTS[t.below(BLOCK_COMMENTS.len())]);
